@@ -23,6 +23,8 @@ func init() {
 func runC20(c *Ctx) {
 	c20Dial(c)
 	c20Watcher(c)
+	// the watcher maps the I/O error Upgrade returns: Upgrade must hand it back unchanged
+	dialerUpgradeRules(c, "C20")
 }
 
 func c20Dial(c *Ctx) {
